@@ -59,6 +59,28 @@ Definition rsp_body (rsp : val) : nat * val :=
   if (rsp_version rsp =? tup_version)%Z then (req_sid, req_of_rsp rsp) else (rsp_sid, rsp).
 Definition rsp2byte (rsp : val) : list N := let '(sid, v) := rsp_body rsp in frame (encode e sid v).
 
+(* Protocol.InvokeTimeout: the request is read like in Invoke (pkg[4:], ReadFrom, the error ignored), and a reply
+   carrying its version, packet type and request id, iRet = 1 and a fixed description is framed by rsp2Byte. When the
+   request does not decode, the reply is built from whatever members were read before the error: not modelled
+   (DErr); the reply is then only monitored to be a well-formed packet. *)
+Definition timeout_desc : list N := raw "server invoke timeout"%hex.
+Definition timeout_rsp (req : val) : val :=
+  let vs := match req with VStruct l => l | _ => [] end in
+  let from t z := match member (fields_of e req_sid) vs t with Some v => v | None => z end in
+  VStruct (map (fun fd =>
+                  let z := zero_of 64 e (fty fd) in
+                  if ftag fd =? 1 then from 1 z            (* iVersion *)
+                  else if ftag fd =? 2 then from 2 z       (* cPacketType *)
+                  else if ftag fd =? 3 then from 4 z       (* iRequestId <- request tag 4 *)
+                  else if ftag fd =? 5 then VInt 1         (* iRet *)
+                  else if ftag fd =? 8 then VStr timeout_desc
+                  else z) (fields_of e rsp_sid)).
+Definition invoke_timeout (pkg : list N) : dres (list N) :=
+  match request_unpack pkg with
+  | DOk req r => DOk (rsp2byte (timeout_rsp req)) r
+  | DErr => DErr | DPanic s => DPanic s | DHuge => DHuge | DFuel => DFuel
+  end.
+
 End Packets.
 
 (* ParsePackage = TarsRequest: status and length as the Go function returns them *)
